@@ -1020,59 +1020,14 @@ func cmdWrites(args []string) int {
 		return 2
 	}
 	if len(args) == 3 && args[0] == "why" {
-		// why <fn-suffix> <key-substring>: print a call chain to a function that writes the key
 		for k, fn := range g.fnByKey {
 			if !strings.HasSuffix(k, args[1]) {
 				continue
 			}
-			cg := g.callGraph()
-			type item struct {
-				f    *ssa.Function
-				prev *item
-			}
-			seen := map[*ssa.Function]bool{}
-			queue := []*item{{fn, nil}}
-			for len(queue) > 0 {
-				it := queue[0]
-				queue = queue[1:]
-				if seen[it.f] {
-					continue
-				}
-				seen[it.f] = true
-				if u := g.unitFor(it.f); u != nil && it.f != fn && (u.HasMod || u.Trusted || u.Pure) {
-					ws := &writeSet{keys: map[string]bool{}}
-					g.unitModKeys(u, it.f, ws)
-					for w := range ws.keys {
-						if strings.Contains(w, args[2]) {
-							fmt.Println("contract of", it.f.String(), "modifies", w, "via:")
-							for x := it; x != nil; x = x.prev {
-								fmt.Println("   ", x.f.String())
-							}
-							return 0
-						}
-					}
-					continue
-				}
-				if g.isPureLib(it.f) && it.f != fn {
-					continue
-				}
-				dw := g.directWrites(it.f)
-				hit := ""
-				for w := range dw.keys {
-					if strings.Contains(w, args[2]) {
-						hit = w
-					}
-				}
-				if hit != "" {
-					fmt.Println("writes", hit, "via:")
-					for x := it; x != nil; x = x.prev {
-						fmt.Println("   ", x.f.String())
-					}
-					return 0
-				}
-				for _, t := range g.targetsLocked(cg, it.f) {
-					queue = append(queue, &item{t, it})
-				}
+			g.traceSub = args[2]
+			g.fnWrites(fn, fn.Pkg.Pkg)
+			for _, l := range g.traceOut {
+				fmt.Println("   ", l)
 			}
 		}
 		return 0
